@@ -446,6 +446,61 @@ func (ev *c19eval) ipVerdict(expected []string) (violation, undecided string) {
 	return "", ""
 }
 
+// methodCall: recv.M(arg...) where M is a method of the same list type with one variadic
+// parameter whose body is in the append-expression subset with a single unconditional path. The
+// callee's result over its own (D, A) is composed with the caller's current list and argument.
+func (ev *c19eval) methodCall(call *ast.CallExpr, cur *absSeq) (absSeq, bool) {
+	se, ok := call.Fun.(*ast.SelectorExpr)
+	if !ok || len(call.Args) != 1 || !call.Ellipsis.IsValid() || ev.depth > 2 {
+		return absSeq{}, false
+	}
+	if id, ok := se.X.(*ast.Ident); !ok || ev.info.Uses[id] != ev.recv {
+		return absSeq{}, false
+	}
+	fn, ok := ev.info.Uses[se.Sel].(*types.Func)
+	if !ok {
+		return absSeq{}, false
+	}
+	h := ev.decls[fn]
+	if h == nil || h.Body == nil || h.Recv == nil || len(h.Recv.List[0].Names) != 1 || h.Type.Params == nil || len(h.Type.Params.List) != 1 || len(h.Type.Params.List[0].Names) != 1 {
+		return absSeq{}, false
+	}
+	sub := &c19eval{info: ev.info, decls: ev.decls, depth: ev.depth + 1}
+	sub.recv = ev.info.Defs[h.Recv.List[0].Names[0]]
+	sub.arg = ev.info.Defs[h.Type.Params.List[0].Names[0]]
+	paths, und := sub.run(h.Body.List)
+	if und != "" || len(paths) != 1 || paths[0].conditional || !paths[0].val.ok || paths[0].val.unknown || (paths[0].ip != nil && paths[0].ip.touched) {
+		return absSeq{}, false
+	}
+	res := paths[0].val
+	d := absSeq{atoms: []string{"D"}, base: "recv", ok: true}
+	if cur != nil {
+		d = *cur
+	}
+	a := ev.eval(call.Args[0])
+	if !a.ok || !d.ok || a.unknown || d.unknown {
+		return absSeq{}, false
+	}
+	out := absSeq{ok: true}
+	for _, at := range res.atoms {
+		switch at {
+		case "D":
+			out.atoms = append(out.atoms, d.atoms...)
+		case "A":
+			out.atoms = append(out.atoms, a.atoms...)
+		}
+	}
+	switch res.base {
+	case "recv":
+		out.base = d.base
+	case "arg":
+		out.base = a.base
+	default:
+		out.base = res.base
+	}
+	return out, true
+}
+
 type c19path struct {
 	ip          *ipState
 	val         absSeq
@@ -596,6 +651,13 @@ func (ev *c19eval) run(list []ast.Stmt) (paths []c19path, undecided string) {
 					}
 				case *ast.ExprStmt:
 					if call, ok := x.X.(*ast.CallExpr); ok {
+						// d.M(x...) with M another method of the list: its abstract effect, composed
+						if nv, ok := ev.methodCall(call, cs.cur); ok {
+							ns := clone(cs)
+							ns.cur = &nv
+							next = append(next, ns)
+							continue
+						}
 						if id, ok := call.Fun.(*ast.Ident); ok && id.Name == "copy" && len(call.Args) == 2 {
 							if _, isB := ev.info.Uses[id].(*types.Builtin); isB {
 								ns := clone(cs)
